@@ -1,6 +1,7 @@
 package simval
 
 import (
+	"fmt"
 	"math"
 
 	"github.com/cosmos/cosmos-proto/internal/verifsim/simhook"
@@ -27,6 +28,12 @@ type GenCfg struct {
 	// caller can put into a message; encoders may reject it, readers must not
 	// rewrite it).
 	InvalidUTF8 bool
+	// Huge: now and then a string or bytes value of 32 KiB .. 70 KB (size
+	// thresholds of pools, staging buffers, "large payload" fast paths).
+	Huge bool
+	// ManyKeys: now and then a string-keyed map with a few hundred to a few
+	// thousand distinct short keys (fills per-process tables and caches).
+	ManyKeys bool
 }
 
 var int32Pool = []int64{0, 1, -1, 2, 127, 128, -128, -129, 255, 256, 16383, 16384, math.MaxInt32, math.MinInt32, math.MaxInt32 - 1, math.MinInt32 + 1, 1 << 30, -(1 << 30), 65536, -65536}
@@ -64,7 +71,17 @@ func drawUint(t *simhook.Tape, pool []uint64, bits uint) uint64 {
 	return v<<2 ^ v
 }
 
+var hugeLens = []int{32768, 40000, 65535, 65536, 70001}
+
 func drawString(t *simhook.Tape) string {
+	if hugeValues && t.Chance("hugestr", 1, 12) {
+		b := make([]byte, hugeLens[t.Draw("hugestrlen", len(hugeLens))])
+		seed := uint64(t.Draw("hugestrseed", 1<<20))
+		for j := range b {
+			b[j] = byte('a' + simhook.SplitMix(&seed)%26)
+		}
+		return string(b)
+	}
 	i := t.Draw("str", len(stringPool)+3)
 	if i < len(stringPool) {
 		return stringPool[i]
@@ -89,6 +106,14 @@ func drawString(t *simhook.Tape) string {
 }
 
 func drawBytes(t *simhook.Tape) []byte {
+	if hugeValues && t.Chance("hugebytes", 1, 12) {
+		b := make([]byte, hugeLens[t.Draw("hugebyteslen", len(hugeLens))])
+		seed := uint64(t.Draw("hugebytesseed", 1<<20))
+		for j := range b {
+			b[j] = byte(simhook.SplitMix(&seed))
+		}
+		return b
+	}
 	switch t.Draw("bytes", 7) {
 	case 6:
 		return []byte{} // the zero value: legal in oneof members, list elements and map values
@@ -123,6 +148,9 @@ var invalidStrings = []string{"\xff", "\xfe", "a\x80b", "a\x81b", "\xc3\x28", "o
 // invalidUTF8 is switched on by Gen for the duration of one value (the tape
 // owner is single-threaded).
 var invalidUTF8 bool
+
+// hugeValues likewise (GenCfg.Huge).
+var hugeValues bool
 
 // DrawScalar draws one value of the field's kind (not for message kinds).
 func DrawScalar(t *simhook.Tape, fd protoreflect.FieldDescriptor) protoreflect.Value {
@@ -226,8 +254,8 @@ func classify(md protoreflect.MessageDescriptor) *fieldClasses {
 // message. Maps are favoured, and message-bearing fields are favoured while
 // depth remains, so that maps with several entries occur below the top level.
 func Gen(t *simhook.Tape, md protoreflect.MessageDescriptor, cfg GenCfg) *dynamicpb.Message {
-	invalidUTF8 = cfg.InvalidUTF8
-	defer func() { invalidUTF8 = false }()
+	invalidUTF8, hugeValues = cfg.InvalidUTF8, cfg.Huge
+	defer func() { invalidUTF8, hugeValues = false, false }()
 	return gen(t, md, cfg, 0)
 }
 
@@ -304,6 +332,15 @@ func genField(t *simhook.Tape, m *dynamicpb.Message, fd protoreflect.FieldDescri
 		}
 		mp := m.Mutable(fd).Map()
 		kfd, vfd := fd.MapKey(), fd.MapValue()
+		if cfg.ManyKeys && kfd.Kind() == protoreflect.StringKind && vfd.Kind() != protoreflect.MessageKind && t.Chance("manykeys", 1, 6) {
+			many := []int{300, 1100, 2100}[t.Draw("manykeysn", 3)]
+			v := DrawScalar(t, vfd)
+			base := t.Draw("manykeysbase", 1<<24) // distinct from other values' keys, most of the time
+			for i := 0; i < many; i++ {
+				mp.Set(protoreflect.ValueOfString(fmt.Sprintf("k%x-%d", base, i)).MapKey(), v)
+			}
+			return
+		}
 		for i := 0; i < n; i++ {
 			k := DrawScalar(t, kfd).MapKey()
 			var v protoreflect.Value
